@@ -6,7 +6,6 @@
 (* is xsl:strip-space: among the declarations whose name test matches the element, the one with  *)
 (* the highest import precedence, then the highest default priority of its name test (QName 0,    *)
 (* NCName:* -0.25, * -0.5), then the last one.  No declaration = preserve.                        *)
-(* (xml:space in source documents is kept out of this property's generators.)                      *)
 EXTENDS XPathSem
 
 TestMatches(D, i, t) == CASE t.t = "any" -> TRUE
@@ -22,9 +21,23 @@ StripsElement(D, i, decls) ==
   IN IF app = {} THEN FALSE
      ELSE decls[CHOOSE a \in app : \A b \in app : better(a, b)].strip
 
+(* 3.4: "an ancestor element of the text node has an xml:space attribute with a value of preserve, and no closer ancestor   *)
+(* element has xml:space with a value of default" - such a text node is preserved whatever the declarations say.            *)
+XmlNsUri == <<104, 116, 116, 112, 58, 47, 47, 119, 119, 119, 46, 119, 51, 46, 111, 114, 103, 47, 88, 77, 76, 47, 49, 57, 57, 56, 47, 110, 97, 109, 101, 115, 112, 97, 99, 101>>
+SpaceAttrs(D, e) == {a \in 1..D.n : D.kind[a] = "attr" /\ D.parent[a] = e /\ D.local[a] = <<115, 112, 97, 99, 101>> /\ D.uri[a] = XmlNsUri}
+RECURSIVE SpacePreserved(_, _)
+SpacePreserved(D, e) ==
+  LET as == SpaceAttrs(D, e)
+      v == IF as = {} THEN <<>> ELSE D.value[CHOOSE a \in as : TRUE] IN
+  IF v = <<112, 114, 101, 115, 101, 114, 118, 101>> THEN TRUE                         \* preserve
+  ELSE IF v = <<100, 101, 102, 97, 117, 108, 116>> THEN FALSE                        \* default
+  ELSE IF D.parent[e] # 0 /\ D.kind[D.parent[e]] = "elem" THEN SpacePreserved(D, D.parent[e])
+  ELSE FALSE
+
 StrippedIds(D, decls) ==
   {j \in 1..D.n : /\ D.kind[j] = "text" /\ IsWsOnly(D.value[j])
-                  /\ D.kind[D.parent[j]] = "elem" /\ StripsElement(D, D.parent[j], decls)}
+                  /\ D.kind[D.parent[j]] = "elem" /\ StripsElement(D, D.parent[j], decls)
+                  /\ ~SpacePreserved(D, D.parent[j])}
 
 (* the document from which the nodes S have been physically removed (ids renumbered in order);   *)
 (* keep[k] is the old id of new node k                                                            *)
